@@ -16,6 +16,8 @@ pub struct EnvB {
     pub flip_owned: bool,
     /// drop observer events (C13's twin run)
     pub strip_observers: bool,
+    /// build execution B through the hasher-less constructor with this ctor code (RandomState)
+    pub rs_ctor: Option<u8>,
 }
 
 #[derive(Clone, Debug, PartialEq)]
@@ -115,6 +117,7 @@ impl Trace {
                 "strip_rehash": b.strip_rehash,
                 "flip_owned": b.flip_owned,
                 "strip_observers": b.strip_observers,
+                "rs_ctor": b.rs_ctor,
             });
         }
         v
@@ -172,6 +175,7 @@ impl Trace {
             strip_rehash: b.get("strip_rehash").and_then(|x| x.as_bool()).unwrap_or(false),
             flip_owned: b.get("flip_owned").and_then(|x| x.as_bool()).unwrap_or(false),
             strip_observers: b.get("strip_observers").and_then(|x| x.as_bool()).unwrap_or(false),
+            rs_ctor: b.get("rs_ctor").and_then(|x| x.as_u64()).map(|x| x as u8),
         });
         Ok(Trace {
             prop: v.get("property").and_then(|x| x.as_str()).unwrap_or("").to_string(),
